@@ -702,6 +702,19 @@ class Parser:
                 if self.at("="):
                     self.next()
                     init = self.expr()
+                if init is not None and self.at("else"):
+                    # `let PAT = EXPR else { DIVERGES };` is `let (v..) = match EXPR { PAT => (v..), _ => DIVERGES };`
+                    self.next()
+                    els = self.block()
+                    names = pat_bound_names(p)
+                    if not names:
+                        raise TransError("let-else whose pattern binds nothing")
+                    if len(names) == 1:
+                        val, lp = ("path", [names[0]]), ("pvar", names[0])
+                    else:
+                        val, lp = ("tuple", [("path", [n]) for n in names]), ("ptuple", [("pvar", n) for n in names])
+                    init = ("match", init, [(p, None, val), (("pwild",), None, els)])
+                    p, t = lp, None
                 self.expect(";")
                 stmts.append(("let", p, t, init))
                 continue
@@ -754,6 +767,22 @@ class Parser:
             elif tail is not None:
                 tail = None
         return ("block", stmts, tail)
+
+
+def pat_bound_names(p):
+    if p[0] == "pvar":
+        return [p[1]]
+    if p[0] == "pat_at":
+        return [p[1]] + pat_bound_names(p[2])
+    if p[0] in ("ptuple", "parray"):
+        return [n for x in p[1] for n in pat_bound_names(x)]
+    if p[0] == "pslice_last":
+        return pat_bound_names(p[1])
+    if p[0] == "pctor":
+        return [n for x in p[2] for n in pat_bound_names(x)]
+    if p[0] == "pstruct":
+        return [n for _, x in p[2] for n in pat_bound_names(x)]
+    return []
 
 
 _TARGET_CFG = None
@@ -1079,6 +1108,7 @@ STRUCTS.update({
     "TimeZoneRef": {"transitions": ("transitions", ("slice", ("named", "Transition"))), "local_time_types": ("localTimeTypes", ("slice", ("named", "LocalTimeType"))),
                     "leap_seconds": ("leapSeconds", ("slice", ("named", "LeapSecond"))), "extra_rule": ("extraRule", ("option", ("named", "TransitionRule")))},
 })
+STRUCTS["TimeZone"] = dict(STRUCTS["TimeZoneRef"])      # the owned zone: Vec for slice, same model structure
 # structures that exist only in the translation (TzVerif.Src, SrcPrelude.lean); everything else is TzVerif.Model
 SRC_STRUCTS = {"MonthWeekDay", "JulianDayCheckInfos", "MonthWeekDayCheckInfos"}
 LEAN_TYPE_NAME = {"TimeZoneRef": "TzVerif.Model.TimeZone", "FoundDateTimeKind": "TzVerif.Model.Found", "FoundDateTimeListRefMut": "TzVerif.Model.RefMut"}
@@ -1955,6 +1985,9 @@ class Fn:
         if name in ("saturating_add", "saturating_sub") and it:
             op = {"saturating_add": "+", "saturating_sub": "-"}[name]
             return ("(Src.sat_%s (%s %s %s))" % (it, s, op, a[0]), t)
+        if name == "partial_cmp" and t and t[0] == "tuple" and len(t[1]) == 2 and all(x[0] in INT_TYPES for x in t[1]):
+            # core's lexicographic PartialOrd on a pair of integers (modelled: Src.tuple2_partial_cmp)
+            return ("(Src.tuple2_partial_cmp %s %s)" % (s, a[0]), ("option", ("named", "Ordering")))
         if name == "rem_euclid":
             return ("(%s %% %s)" % (s, a[0]), t)
         if name == "div_euclid":
@@ -2123,6 +2156,10 @@ class Fn:
             raise TransError("call of a non-path")
         path = f[1]
         name = path[-1]
+        if len(path) == 2 and name == "from" and path[0] in INT_TYPES and len(args) == 1:
+            # `i64::from(x)`: core implements From between integer types only where it is lossless; same meaning as
+            # the cast (which wraps whenever the translator cannot see that it widens)
+            return self.ex(("cast", args[0], (path[0],)), env)
         if path == ["iter", "repeat"]:
             return ("(Src.Repeat.mk %s)" % self.ex(args[0], env)[0], ("repeat",))
         if path[-2:] == ["Vec", "with_capacity"] or path[-2:] == ["Vec", "new"]:
@@ -3411,6 +3448,10 @@ CONFIG = {
             "DateTime.find": {}, "DateTime.find_n": {},
         }),
         ("src/datetime/mod.rs", {
+            # equality and ordering of zoned date-times (impl PartialEq / PartialOrd)
+            "DateTime.eq": {}, "DateTime.partial_cmp": {}, "DateTime.unix_time": {},
+        }),
+        ("src/datetime/mod.rs", {
             "format_date_time": {"out_param": "f", "out_kind": "fmt"},
         }),
         ("src/parse/utils.rs", {
@@ -3433,6 +3474,11 @@ CONFIG = {
         ("src/parse/tz_file.rs", {
             "parse_header": {}, "parse_footer": {}, "read_data_blocks": {}, "DataBlocks_4.parse_time": {}, "DataBlocks_8.parse_time": {},
             "DataBlocks.parse": {}, "parse_tz_file": {},
+        }),
+        ("src/timezone/mod.rs", {
+            # the owned zone's constructors and wrappers
+            "TimeZone.as_ref": {}, "TimeZone.find_local_time_type": {}, "TimeZone.from_tz_data": {},
+            "LocalTimeType.utc": {"struct_override": {"LocalTimeType": "LocalTimeTypeSrc"}},
         }),
         ("src/timezone/mod.rs", {
             # TZ value resolution; `io`: the calls of the injected file-reading function are logged, in order
@@ -3462,9 +3508,30 @@ elab "delta_matchers" : tactic => do
 
 /-- restructured control flow: case analysis on both sides, each case by syntactic equality, arithmetic or rewriting.
 Everything here is a kernel-checked proof or fails. -/
+theorem TzVerif.Src.ite_congr_same {α} {c c' : Prop} [Decidable c] [Decidable c'] {a b a' b' : α} (h : c ↔ c')
+    (h1 : c' → a = a') (h2 : ¬ c' → b = b') : ite c a b = ite c' a' b' := by
+  by_cases hc : c' <;> simp_all
+
+theorem TzVerif.Src.ite_congr_flip {α} {c c' : Prop} [Decidable c] [Decidable c'] {a b a' b' : α} (h : c ↔ ¬ c')
+    (h1 : ¬ c' → a = b') (h2 : c' → b = a') : ite c a b = ite c' a' b' := by
+  by_cases hc : c' <;> simp_all
+
+/-- two `if` cascades whose conditions are linear-arithmetic equivalent (`x > 23` / `x ≥ 24`, De Morgan, a negated
+test with the branches exchanged): walk both in step; every condition equivalence is an `omega` proof. `split` on
+such a pair multiplies the cases and is slow; this is linear in the length of the cascade. -/
+macro "src_ite_walk" : tactic => `(tactic|
+  ((try simp only [Bool.or_eq_true, Bool.and_eq_true, decide_eq_true_eq, Bool.not_eq_true, Bool.and_eq_false_iff,
+      Bool.or_eq_false_iff, decide_eq_false_iff_not, Bool.not_eq_eq_eq_not, Bool.not_true, Bool.not_false]);
+   (repeat' (first
+      | with_reducible rfl
+      | (refine TzVerif.Src.ite_congr_same (by omega) (fun _ => ?_) (fun _ => ?_))
+      | (refine TzVerif.Src.ite_congr_flip (by omega) (fun _ => ?_) (fun _ => ?_))));
+   done))
+
 macro "src_portfolio" : tactic => `(tactic|
   first
     | with_reducible rfl
+    | src_ite_walk
     | ((repeat' split) <;> first | with_reducible rfl | (delta_matchers; with_reducible rfl) | omega | (simp_all; done) | grind))
 """
 
@@ -3526,6 +3593,11 @@ def elaboration_errors(text):
     tmp = os.path.join(work, "SrcCheck.lean")
     open(tmp, "w").write(text)
     try:
+        # the hand-written preludes the generated module imports must be compiled from their current text first
+        # (a stale object file would make a new prelude definition look like an unknown identifier)
+        mods = re.findall(r"^import (TzVerif\.\S+)", text, re.M)
+        if mods:
+            subprocess.run(["lake", "build"] + mods, cwd=lean_dir, capture_output=True, text=True, timeout=900)
         r = subprocess.run(["lake", "env", "lean", tmp], cwd=lean_dir, capture_output=True, text=True, timeout=900)
     except Exception as e:
         sys.stderr.write("rs2lean: elaboration check not run: %s\n" % e)
